@@ -976,6 +976,11 @@ func (in *Interp) dispatch(fr *frame, site ssa.CallInstruction, cc *ssa.CallComm
 				if _, _, isOS := osStructErr(recv); isOS {
 					return in.errText(recv, site)
 				}
+				// an error made by errors.New / fmt.Errorf: its text is the
+				// message it was made with (with what the message embeds)
+				if _, isE := iv.V.(*ErrObj); isE {
+					return in.errText(recv, site)
+				}
 			}
 			if sel := in.c.P.Prog.MethodSets.MethodSet(iv.Dyn).Lookup(cc.Method.Pkg(), cc.Method.Name()); sel != nil {
 				target = in.c.P.Prog.MethodValue(sel)
